@@ -6,6 +6,7 @@ import (
 	"fmt"
 	"sort"
 	"strings"
+	"time"
 
 	"github.com/hedzr/logg/slog"
 
@@ -343,6 +344,20 @@ func c07main(c *Ctx) {
 				}
 			}
 		}
+		// the context may be done by the time of the call (a cancelled request, a passed deadline - the error path of a
+		// request is where one logs): it still holds its values
+		switch {
+		case nkeys > 0 && idx%5 == 1:
+			cctx, cancel := context.WithCancel(ctx)
+			cancel()
+			ctx = cctx
+			c.R.Add("records_under_a_context_that_is_done", 1)
+		case nkeys > 0 && idx%5 == 3:
+			dctx, cancel := context.WithDeadline(ctx, time.Unix(1, 0))
+			defer cancel()
+			ctx = context.WithValue(dctx, ctxKeyT{"after-the-deadline"}, 1)
+			c.R.Add("records_under_a_context_that_is_done", 1)
+		}
 		// call arguments
 		ncall := r.Intn(8)
 		if r.P(30) {
@@ -441,6 +456,16 @@ func c07main(c *Ctx) {
 		// the logger may be the process's DEFAULT logger (handed to SetDefault as the *Entry it is), the record issued
 		// through the package-level function: the same sources, the same rule
 		viaPkg := r.P(12)
+		if !viaPkg && r.P(20) {
+			// the process's default logger (no ancestor of this chain) has attributes of its own, app-wide ones: they are the
+			// default logger's
+			savedDef := slog.Default()
+			app := slog.New("app-default")
+			app.Set(c07key(r.Intn(keyspace)), "DEFAULT-LOGGER", "zz-app", "DEFAULT-LOGGER")
+			slog.SetDefault(app)
+			defer slog.SetDefault(savedDef)
+			c.R.Add("records_while_the_default_logger_holds_attributes_of_its_own", 1)
+		}
 		if viaPkg {
 			savedDef := slog.Default()
 			slog.SetDefault(lg)
